@@ -277,6 +277,10 @@ func (b *builder) splitCriticalEdge(pred, succ *basicBlock, predInfo *basicBlock
 	newBranch := b.AllocateInstruction()
 	newBranch.opcode = originalBranch.opcode
 	newBranch.rValue = Value(trampoline.ID())
+	// The new branch stays in the instruction group of the one it replaces: the backend only merges the
+	// definition of the condition (and loads feeding it) into the branch when both are in the same group,
+	// i.e. when no side-effecting instruction sits in between.
+	newBranch.gid = originalBranch.gid
 	switch originalBranch.opcode {
 	case OpcodeJump:
 	case OpcodeBrz, OpcodeBrnz:
